@@ -87,6 +87,26 @@ theorem too_long_detected (H : Bytes → Bytes) (v : Bool) (size : Nat) (d : Byt
     (hl : cs.flatten.length > size) : (readAll H v size d [] cs).clean = false :=
   too_long_aux H v size d cs [] (by simpa using hl) (by simp)
 
+/-- **What is read by digest hashes to the digest that was asked for** (fix F31): whatever
+`Docker-Content-Digest` header the response carries — none, the right one, or one that matches a different
+body the registry chose to send — a read that names a digest and ends cleanly has relayed the whole body,
+and that body hashes to the requested digest. -/
+theorem requested_digest_verified (H : Bytes → Bytes) (size : Nat) (asked hdr : Bytes) (cs : List Bytes)
+    (ha : asked ≠ []) (h : (readAll H true size (descDigest asked hdr) [] cs).clean = true) :
+    readAll H true size (descDigest asked hdr) [] cs = .eof cs.flatten ∧ H cs.flatten = asked := by
+  have := blobReader_sound H size (descDigest asked hdr) [] cs h
+  simp only [List.nil_append, descDigest, ha, ne_eq, not_false_eq_true, ↓reduceIte] at this
+  exact ⟨by simpa [descDigest, ha] using this.1, this.2.2⟩
+
+/-- Through a tag the caller names no digest: the header's digest is what the content is checked against. -/
+theorem tag_read_checks_header (H : Bytes → Bytes) (size : Nat) (hdr : Bytes) (cs : List Bytes)
+    (h : (readAll H true size (descDigest [] hdr) [] cs).clean = true) : H cs.flatten = hdr := by
+  have := blobReader_sound H size (descDigest [] hdr) [] cs h
+  simpa [descDigest] using this.2.2
+
+example : (readAll (fun b => b) true 1 (descDigest [7] [9]) [] [[9]]).clean = false := by decide
+example : readAll (fun b => b) true 1 (descDigest [7] [9]) [] [[7]] = .eof [7] := by decide
+
 example : readAll (fun b => b) true 3 [1, 2, 3] [] [[1], [2, 3]] = .eof [1, 2, 3] := by decide
 example : (readAll (fun b => b) true 3 [1, 2, 3] [] [[1], [2]]).clean = false := by decide
 example : (readAll (fun b => b) true 3 [1, 2, 3] [] [[1, 2], [3, 4]]).clean = false := by decide
